@@ -52,8 +52,16 @@ def _conformance(seed, thorough=False):
     return dict(cases=cases, violations=v, known={}, bound=f"{cases} random graphs <= 6 nodes (seed {seed}) + one thread-pool / event-loop scenario: every clause of the TRUSTED networkx / concurrent.futures / asyncio / copy / pickle / functools contracts evaluated on the real libraries (tested, not proved)")
 
 
+def _differential(seed, thorough=False):
+    from harness.differential import check_differential
+
+    v, cases = check_differential(seed, n_cases=400 if thorough else 60)
+    return dict(cases=cases, violations=v, known={}, bound=f"{cases} concrete runs (seed {seed}): the mechanically rewritten bodies of 17 functions under contract (loop-cut scaffolding in place, real module namespace, builtin overrides) against the untouched functions on random graphs / node tables / results maps")
+
+
 BOUNDED = {
     "conformance": _conformance,
+    "differential": _differential,
     "threads": _misc("check_threads", "real threads: 6 rounds of 6 concurrent calls of one DAG; a call and an @xn call while another thread's build is paused inside its describing function; two concurrent builds with the lock hand-over forced (delegating lock)", dict(n_cases=6), dict(n_cases=30)),
     "async": _misc("check_async", "one event loop: gather of 2 and 5 first awaits of an AsyncDAG with an unexecuted setup node; an async-thread node released by a sibling coroutine (also after a node failure)"),
     "priority_table": _misc("check_priority_table", "random DAGs <= 5 nodes (non-tree shapes) with integer priorities, seed {seed}: table of the DAG and of 4 executors vs own + sum over distinct descendants; thorough: + 6 sub-processes with different PYTHONHASHSEED", dict(n_cases=150), dict(n_cases=1500, hash_seeds=(0, 1, 2, 3, 4, 5))),
